@@ -27,22 +27,44 @@ def convert(filename, fd_out):
     @type fd_out: file descripter
     """
     logger = logging.getLogger('pyx12')
-    wr = pyx12.x12file.X12Writer(fd_out, '~', '*', ':', '\n', '^')
     parser = et.XMLParser(encoding="utf-8")
     doc = et.parse(filename, parser=parser)
+    (seg_term, ele_term, subele_term, repetition_term) = _pick_delimiters(doc)
+    wr = pyx12.x12file.X12Writer(fd_out, seg_term, ele_term, subele_term, '\n', repetition_term)
     for node in doc.iter():
         if node.tag == 'seg':
-            wr.Write(get_segment(node))
+            wr.Write(get_segment(node, seg_term, ele_term, subele_term))
     return True
 
 
-def get_segment(cSegment):
+def _pick_delimiters(doc):
+    """
+    The usual ~ * : ^ unless one of them occurs in the data (the source may have
+    used other delimiters): a value holding an output delimiter would be split
+    """
+    data = set()
+    for node in doc.iter():
+        if node.tag in ('ele', 'subele') and node.text:
+            if node.get('id') not in ('ISA11', 'ISA16'):
+                data.update(node.text)
+    picked = []
+    for cands in ('~|!\x1c', '*|+!\x1d', ':>\\<\x1f', '^`}{\x1e'):
+        for c in cands:
+            if c not in data and c not in picked:
+                picked.append(c)
+                break
+        else:
+            picked.append(cands[0])
+    return tuple(picked)
+
+
+def get_segment(cSegment, seg_term='~', ele_term='*', subele_term=':'):
     """
     Build an X12 segment from a XML node
     """
     seg_id = cSegment.get('id')
     #seg_id = cSeg.findtext('data_ele')
-    seg_data = pyx12.segment.Segment(seg_id, '~', '*', ':')
+    seg_data = pyx12.segment.Segment(seg_id, seg_term, ele_term, subele_term)
     for node in cSegment.iter():
         if node.tag == 'ele':
             ele_id = node.get('id')
